@@ -510,7 +510,14 @@ class Interp:
         cenv = Env(ns, modenv, env)
         for st in node.body:
             if isinstance(st, ast.FunctionDef):
-                ns[st.name] = FuncVal(st, modenv, closure=env, qualname=f"{node.name}.{st.name}", cls=cls)
+                decs = [ast.unparse(d) for d in st.decorator_list]
+                fv = FuncVal(st, modenv, closure=env, qualname=f"{node.name}.{st.name}", cls=cls)
+                if any(d.endswith(".setter") or d.endswith(".deleter") for d in decs) and isinstance(ns.get(st.name), FuncVal) and \
+                        ("property" in ns[st.name].decorators or any(d.endswith(".getter") for d in ns[st.name].decorators)):
+                    continue      # the property keeps its getter; setters are found through _find_setter
+                if any(d.endswith(".getter") for d in decs):
+                    fv.decorators = list(fv.decorators) + ["property"]
+                ns[st.name] = fv
             elif isinstance(st, (ast.Assign, ast.AnnAssign)):
                 if isinstance(st, ast.AnnAssign) and st.value is None:
                     continue
